@@ -40,7 +40,7 @@ def evaluate(name, wt, checks, tier, tests, evidence_dir=None):
         res["tests"] = "green" if " passed" in t.stdout and "failed" not in t.stdout and "error" not in t.stdout.lower() else "RED"
     for c in checks:
         t0 = time.time()
-        r = sh(f"cd /verif && CSS_REPO={wt} ./check {c} --tier {tier} --no-confirm", timeout=7200)
+        r = sh(f"cd /verif && VERIF_EVIDENCE_DIR=/tmp/verif_scratch/evidence VERIF_REPLAY_DIR=/tmp/verif_scratch/replays CSS_REPO={wt} ./check {c} --tier {tier} --no-confirm", timeout=7200)
         groups = [l.strip() for l in r.stdout.splitlines() if l.startswith("  ")]
         res["checks"][c] = {"rc": r.returncode, "s": round(time.time() - t0, 1), "groups": groups[:3]}
     line = f"{name:45s} tests={res.get('tests','-'):5s} " + " ".join(
